@@ -1402,4 +1402,367 @@ theorem C18_accept_wf (ctx : Ctx) (req : Req) (e : Effect)
                 refine ⟨⟨⟨⟨by omega, by decide⟩, ?_⟩, by decide⟩, hlim.2⟩
                 exact (viol_r 1 75 _).mpr hlim
 
+/-! ## the decision skeleton the model was written against (T2 pin)
+
+Every `if` condition, `switch` tag, `case` list and type-switch case list, in source order, of every
+`Validate()`, `CheckCompatibleMap`, `convertToVector`, `ValidateSchema`, `ExtractIdField`, the v1 / v2
+handlers and collection middlewares, `DecodeValid`, the header middleware, and the two quota checks
+of the cluster layer.  Regenerated from the working tree on every run; any edit of a decision in
+that code breaks this `rfl` (then: re-read the Go, repair the model, re-pin).
+To re-pin: copy `skeleton` / `routes` from lean/SemaModel/Generated/FactsC18.lean. -/
+
+theorem C18_pin_routes : FactsC18.routes = ["root mux.Handle(\"/v1/\", http.StripPrefix(\"/v1\", httpv1.SetupV1Handlers(cnode)))",
+  "root mux.Handle(\"/v2/\", http.StripPrefix(\"/v2\", httpv2.SetupV2Handlers(cnode)))",
+  "v1 mux.HandleFunc(\"/ping\", handlePing)",
+  "v1 mux.HandleFunc(\"GET /collections\", semaDBHandlers.HandleListCollections)",
+  "v1 mux.HandleFunc(\"POST /collections\", semaDBHandlers.HandleCreateCollection)",
+  "v1 mux.Handle(\"GET /collections/{collectionId}\", withCol(semaDBHandlers.HandleGetCollection))",
+  "v1 mux.Handle(\"DELETE /collections/{collectionId}\", withCol(semaDBHandlers.HandleDeleteCollection))",
+  "v1 mux.Handle(\"POST /collections/{collectionId}/points\", withCol(semaDBHandlers.HandleInsertPoints))",
+  "v1 mux.Handle(\"PUT /collections/{collectionId}/points\", withCol(semaDBHandlers.HandleUpdatePoints))",
+  "v1 mux.Handle(\"DELETE /collections/{collectionId}/points\", withCol(semaDBHandlers.HandleDeletePoints))",
+  "v1 mux.Handle(\"POST /collections/{collectionId}/points/search\", withCol(semaDBHandlers.HandleSearchPoints))",
+  "v2 mux.HandleFunc(\"/ping\", handlePing)",
+  "v2 mux.HandleFunc(\"GET /collections\", semaDBHandlers.HandleListCollections)",
+  "v2 mux.HandleFunc(\"POST /collections\", semaDBHandlers.HandleCreateCollection)",
+  "v2 mux.Handle(\"GET /collections/{collectionId}\", withCol(semaDBHandlers.HandleGetCollection))",
+  "v2 mux.Handle(\"DELETE /collections/{collectionId}\", withCol(semaDBHandlers.HandleDeleteCollection))",
+  "v2 mux.Handle(\"POST /collections/{collectionId}/points\", withCol(semaDBHandlers.HandleInsertPoints))",
+  "v2 mux.Handle(\"PUT /collections/{collectionId}/points\", withCol(semaDBHandlers.HandleUpdatePoints))",
+  "v2 mux.Handle(\"DELETE /collections/{collectionId}/points\", withCol(semaDBHandlers.HandleDeletePoints))",
+  "v2 mux.Handle(\"POST /collections/{collectionId}/points/search\", withCol(semaDBHandlers.HandleSearchPoints))"] := rfl
+
+theorem C18_pin_skeleton : FactsC18.skeleton = [
+  ("models.IndexSchema.Validate", "if err != nil"),
+  ("models.IndexSchemaValue.Validate", "if v.Type != IndexTypeVectorFlat && v.Type != IndexTypeVectorVamana && v.Type != IndexTypeText && v.Type != IndexTypeString && v.Type != IndexTypeInteger && v.Type != IndexTypeFloat && v.Type != IndexTypeStringArray"),
+  ("models.IndexSchemaValue.Validate", "switch v.Type"),
+  ("models.IndexSchemaValue.Validate", "case IndexTypeVectorFlat"),
+  ("models.IndexSchemaValue.Validate", "case IndexTypeVectorVamana"),
+  ("models.IndexSchemaValue.Validate", "case IndexTypeText"),
+  ("models.IndexSchemaValue.Validate", "case IndexTypeString"),
+  ("models.IndexSchemaValue.Validate", "case IndexTypeStringArray"),
+  ("models.IndexSchemaValue.Validate", "case IndexTypeInteger"),
+  ("models.IndexSchemaValue.Validate", "case IndexTypeFloat"),
+  ("models.IndexSchemaValue.Validate", "default"),
+  ("models.IndexSchemaValue.Validate", "if v.VectorFlat == nil"),
+  ("models.IndexSchemaValue.Validate", "if v.VectorVamana == nil"),
+  ("models.IndexSchemaValue.Validate", "if v.Text == nil"),
+  ("models.IndexSchemaValue.Validate", "if v.String == nil"),
+  ("models.IndexSchemaValue.Validate", "if v.StringArray == nil"),
+  ("models.convertToVector", "typeswitch v := v.(type)"),
+  ("models.convertToVector", "case []float32"),
+  ("models.convertToVector", "case []float64"),
+  ("models.convertToVector", "case []any"),
+  ("models.convertToVector", "default"),
+  ("models.convertToVector", "typeswitch f := f.(type)"),
+  ("models.convertToVector", "case float32"),
+  ("models.convertToVector", "case float64"),
+  ("models.convertToVector", "default"),
+  ("models.IndexSchema.CheckCompatibleMap", "if !ok"),
+  ("models.IndexSchema.CheckCompatibleMap", "if i == len(parts)-1"),
+  ("models.IndexSchema.CheckCompatibleMap", "if ok"),
+  ("models.IndexSchema.CheckCompatibleMap", "if ok"),
+  ("models.IndexSchema.CheckCompatibleMap", "if skip"),
+  ("models.IndexSchema.CheckCompatibleMap", "switch schema.Type"),
+  ("models.IndexSchema.CheckCompatibleMap", "case IndexTypeVectorFlat"),
+  ("models.IndexSchema.CheckCompatibleMap", "case IndexTypeVectorVamana"),
+  ("models.IndexSchema.CheckCompatibleMap", "case IndexTypeText"),
+  ("models.IndexSchema.CheckCompatibleMap", "case IndexTypeString"),
+  ("models.IndexSchema.CheckCompatibleMap", "case IndexTypeInteger"),
+  ("models.IndexSchema.CheckCompatibleMap", "case IndexTypeFloat"),
+  ("models.IndexSchema.CheckCompatibleMap", "case IndexTypeStringArray"),
+  ("models.IndexSchema.CheckCompatibleMap", "if err != nil"),
+  ("models.IndexSchema.CheckCompatibleMap", "if schema.VectorFlat == nil"),
+  ("models.IndexSchema.CheckCompatibleMap", "if len(vector) != int(schema.VectorFlat.VectorSize)"),
+  ("models.IndexSchema.CheckCompatibleMap", "if err != nil"),
+  ("models.IndexSchema.CheckCompatibleMap", "if schema.VectorVamana == nil"),
+  ("models.IndexSchema.CheckCompatibleMap", "if len(vector) != int(schema.VectorVamana.VectorSize)"),
+  ("models.IndexSchema.CheckCompatibleMap", "if !ok"),
+  ("models.IndexSchema.CheckCompatibleMap", "typeswitch v := v.(type)"),
+  ("models.IndexSchema.CheckCompatibleMap", "case int64"),
+  ("models.IndexSchema.CheckCompatibleMap", "case int"),
+  ("models.IndexSchema.CheckCompatibleMap", "case int32"),
+  ("models.IndexSchema.CheckCompatibleMap", "case uint"),
+  ("models.IndexSchema.CheckCompatibleMap", "case uint32"),
+  ("models.IndexSchema.CheckCompatibleMap", "case float32"),
+  ("models.IndexSchema.CheckCompatibleMap", "case float64"),
+  ("models.IndexSchema.CheckCompatibleMap", "default"),
+  ("models.IndexSchema.CheckCompatibleMap", "typeswitch v := v.(type)"),
+  ("models.IndexSchema.CheckCompatibleMap", "case float64"),
+  ("models.IndexSchema.CheckCompatibleMap", "case float32"),
+  ("models.IndexSchema.CheckCompatibleMap", "default"),
+  ("models.IndexSchema.CheckCompatibleMap", "typeswitch v := v.(type)"),
+  ("models.IndexSchema.CheckCompatibleMap", "case []string"),
+  ("models.IndexSchema.CheckCompatibleMap", "case []any"),
+  ("models.IndexSchema.CheckCompatibleMap", "default"),
+  ("models.IndexSchema.CheckCompatibleMap", "if ok"),
+  ("models.IndexVectorFlatParameters.Validate", "if p.VectorSize < 1 || p.VectorSize > 4096"),
+  ("models.IndexVectorFlatParameters.Validate", "if p.DistanceMetric != DistanceEuclidean && p.DistanceMetric != DistanceCosine && p.DistanceMetric != DistanceDot && p.DistanceMetric != DistanceHamming && p.DistanceMetric != DistanceJaccard && p.DistanceMetric != DistanceHaversine"),
+  ("models.IndexVectorFlatParameters.Validate", "if p.DistanceMetric == DistanceHaversine && p.VectorSize != 2"),
+  ("models.IndexVectorFlatParameters.Validate", "if p.Quantizer != nil"),
+  ("models.IndexVectorVamanaParameters.Validate", "if p.VectorSize < 1 || p.VectorSize > 4096"),
+  ("models.IndexVectorVamanaParameters.Validate", "if p.DistanceMetric != DistanceEuclidean && p.DistanceMetric != DistanceCosine && p.DistanceMetric != DistanceDot && p.DistanceMetric != DistanceHamming && p.DistanceMetric != DistanceJaccard && p.DistanceMetric != DistanceHaversine"),
+  ("models.IndexVectorVamanaParameters.Validate", "if p.DistanceMetric == DistanceHaversine && p.VectorSize != 2"),
+  ("models.IndexVectorVamanaParameters.Validate", "if p.SearchSize < 25 || p.SearchSize > 75"),
+  ("models.IndexVectorVamanaParameters.Validate", "if p.DegreeBound < 32 || p.DegreeBound > 64"),
+  ("models.IndexVectorVamanaParameters.Validate", "if p.Alpha < 1.1 || p.Alpha > 1.5"),
+  ("models.IndexVectorVamanaParameters.Validate", "if p.Quantizer != nil"),
+  ("models.IndexTextParameters.Validate", "if p.Analyser != \"standard\""),
+  ("models.Quantizer.Validate", "switch q.Type"),
+  ("models.Quantizer.Validate", "case QuantizerNone"),
+  ("models.Quantizer.Validate", "case QuantizerBinary"),
+  ("models.Quantizer.Validate", "case QuantizerProduct"),
+  ("models.Quantizer.Validate", "default"),
+  ("models.Quantizer.Validate", "if q.Binary == nil"),
+  ("models.Quantizer.Validate", "if q.Product == nil"),
+  ("models.BinaryQuantizerParamaters.Validate", "if b.Threshold == nil && (b.TriggerThreshold < 0 || b.TriggerThreshold > 50000)"),
+  ("models.BinaryQuantizerParamaters.Validate", "if b.DistanceMetric != DistanceHamming && b.DistanceMetric != DistanceJaccard"),
+  ("models.ProductQuantizerParameters.Validate", "if p.NumCentroids < 2 || p.NumCentroids > 256"),
+  ("models.ProductQuantizerParameters.Validate", "if p.NumSubVectors < 2"),
+  ("models.ProductQuantizerParameters.Validate", "if p.TriggerThreshold < 1000 || p.TriggerThreshold > 10000"),
+  ("models.SearchRequest.Validate", "if err != nil"),
+  ("models.SearchRequest.Validate", "if len(r.Sort) > 10"),
+  ("models.SearchRequest.Validate", "if err != nil"),
+  ("models.SearchRequest.Validate", "if r.Offset < 0"),
+  ("models.SearchRequest.Validate", "if r.Limit < 1 || r.Limit > 100"),
+  ("models.Query.Validate", "if len(q.Property) == 0"),
+  ("models.Query.Validate", "if q.VectorFlat != nil"),
+  ("models.Query.Validate", "if err != nil"),
+  ("models.Query.Validate", "if q.VectorVamana != nil"),
+  ("models.Query.Validate", "if err != nil"),
+  ("models.Query.Validate", "if q.Text != nil"),
+  ("models.Query.Validate", "if err != nil"),
+  ("models.Query.Validate", "if q.String != nil"),
+  ("models.Query.Validate", "if err != nil"),
+  ("models.Query.Validate", "if q.Integer != nil"),
+  ("models.Query.Validate", "if err != nil"),
+  ("models.Query.Validate", "if q.Float != nil"),
+  ("models.Query.Validate", "if err != nil"),
+  ("models.Query.Validate", "if q.StringArray != nil"),
+  ("models.Query.Validate", "if err != nil"),
+  ("models.Query.Validate", "if q.Property == \"_and\" && len(q.And) == 0"),
+  ("models.Query.Validate", "if q.Property == \"_or\" && len(q.Or) == 0"),
+  ("models.Query.Validate", "if len(q.And) > 0"),
+  ("models.Query.Validate", "if err != nil"),
+  ("models.Query.Validate", "if len(q.Or) > 0"),
+  ("models.Query.Validate", "if err != nil"),
+  ("models.Query.Validate", "if q.Property == \"_id\""),
+  ("models.Query.Validate", "switch "),
+  ("models.Query.Validate", "case q.String != nil"),
+  ("models.Query.Validate", "case q.StringArray != nil"),
+  ("models.Query.Validate", "default"),
+  ("models.Query.Validate", "if q.String.Operator != OperatorEquals"),
+  ("models.Query.Validate", "if err != nil"),
+  ("models.Query.Validate", "if q.StringArray.Operator != OperatorContainsAny"),
+  ("models.Query.Validate", "if err != nil"),
+  ("models.Query.ValidateSchema", "switch q.Property"),
+  ("models.Query.ValidateSchema", "case \"_and\""),
+  ("models.Query.ValidateSchema", "case \"_or\""),
+  ("models.Query.ValidateSchema", "case \"_id\""),
+  ("models.Query.ValidateSchema", "if err != nil"),
+  ("models.Query.ValidateSchema", "if err != nil"),
+  ("models.Query.ValidateSchema", "if !ok"),
+  ("models.Query.ValidateSchema", "switch value.Type"),
+  ("models.Query.ValidateSchema", "case IndexTypeVectorFlat"),
+  ("models.Query.ValidateSchema", "case IndexTypeVectorVamana"),
+  ("models.Query.ValidateSchema", "case IndexTypeText"),
+  ("models.Query.ValidateSchema", "case IndexTypeString"),
+  ("models.Query.ValidateSchema", "case IndexTypeStringArray"),
+  ("models.Query.ValidateSchema", "case IndexTypeInteger"),
+  ("models.Query.ValidateSchema", "case IndexTypeFloat"),
+  ("models.Query.ValidateSchema", "default"),
+  ("models.Query.ValidateSchema", "if q.VectorFlat == nil"),
+  ("models.Query.ValidateSchema", "if len(q.VectorFlat.Vector) != int(value.VectorFlat.VectorSize)"),
+  ("models.Query.ValidateSchema", "if q.VectorFlat.Filter != nil"),
+  ("models.Query.ValidateSchema", "if err != nil"),
+  ("models.Query.ValidateSchema", "if q.VectorVamana == nil"),
+  ("models.Query.ValidateSchema", "if len(q.VectorVamana.Vector) != int(value.VectorVamana.VectorSize)"),
+  ("models.Query.ValidateSchema", "if q.VectorVamana.Filter != nil"),
+  ("models.Query.ValidateSchema", "if err != nil"),
+  ("models.Query.ValidateSchema", "if q.Text == nil"),
+  ("models.Query.ValidateSchema", "if q.Text.Filter != nil"),
+  ("models.Query.ValidateSchema", "if err != nil"),
+  ("models.Query.ValidateSchema", "if q.String == nil"),
+  ("models.Query.ValidateSchema", "if q.StringArray == nil"),
+  ("models.Query.ValidateSchema", "if q.Integer == nil"),
+  ("models.Query.ValidateSchema", "if q.Float == nil"),
+  ("models.SortOption.Validate", "if len(s.Property) == 0"),
+  ("models.SearchVectorVamanaOptions.Validate", "if len(o.Vector) < 1 || len(o.Vector) > 4096"),
+  ("models.SearchVectorVamanaOptions.Validate", "if o.Operator != OperatorNear"),
+  ("models.SearchVectorVamanaOptions.Validate", "if o.SearchSize < 25 || o.SearchSize > 75"),
+  ("models.SearchVectorVamanaOptions.Validate", "if o.Limit < 1 || o.Limit > 75"),
+  ("models.SearchVectorVamanaOptions.Validate", "if o.SearchSize < o.Limit"),
+  ("models.SearchVectorVamanaOptions.Validate", "if o.Filter != nil"),
+  ("models.SearchVectorVamanaOptions.Validate", "if err != nil"),
+  ("models.SearchVectorFlatOptions.Validate", "if len(o.Vector) < 1 || len(o.Vector) > 4096"),
+  ("models.SearchVectorFlatOptions.Validate", "if o.Operator != OperatorNear"),
+  ("models.SearchVectorFlatOptions.Validate", "if o.Limit < 1 || o.Limit > 75"),
+  ("models.SearchVectorFlatOptions.Validate", "if o.Filter != nil"),
+  ("models.SearchVectorFlatOptions.Validate", "if err != nil"),
+  ("models.SearchTextOptions.Validate", "if len(o.Value) == 0"),
+  ("models.SearchTextOptions.Validate", "switch o.Operator"),
+  ("models.SearchTextOptions.Validate", "case OperatorContainsAll"),
+  ("models.SearchTextOptions.Validate", "case OperatorContainsAny"),
+  ("models.SearchTextOptions.Validate", "default"),
+  ("models.SearchTextOptions.Validate", "if o.Limit < 1 || o.Limit > 75"),
+  ("models.SearchTextOptions.Validate", "if o.Filter != nil"),
+  ("models.SearchTextOptions.Validate", "if err != nil"),
+  ("models.SearchStringOptions.Validate", "if len(o.Value) == 0"),
+  ("models.SearchStringOptions.Validate", "switch o.Operator"),
+  ("models.SearchStringOptions.Validate", "case OperatorEquals, OperatorNotEquals, OperatorStartsWith"),
+  ("models.SearchStringOptions.Validate", "case OperatorGreaterThan, OperatorGreaterOrEq"),
+  ("models.SearchStringOptions.Validate", "case OperatorLessThan, OperatorLessOrEq"),
+  ("models.SearchStringOptions.Validate", "case OperatorInRange"),
+  ("models.SearchStringOptions.Validate", "default"),
+  ("models.SearchStringOptions.Validate", "if o.EndValue <= o.Value"),
+  ("models.SearchIntegerOptions.Validate", "switch o.Operator"),
+  ("models.SearchIntegerOptions.Validate", "case OperatorEquals, OperatorNotEquals"),
+  ("models.SearchIntegerOptions.Validate", "case OperatorGreaterThan, OperatorGreaterOrEq"),
+  ("models.SearchIntegerOptions.Validate", "case OperatorLessThan, OperatorLessOrEq"),
+  ("models.SearchIntegerOptions.Validate", "case OperatorInRange"),
+  ("models.SearchIntegerOptions.Validate", "default"),
+  ("models.SearchIntegerOptions.Validate", "if o.EndValue <= o.Value"),
+  ("models.SearchFloatOptions.Validate", "switch o.Operator"),
+  ("models.SearchFloatOptions.Validate", "case OperatorEquals, OperatorNotEquals"),
+  ("models.SearchFloatOptions.Validate", "case OperatorGreaterThan, OperatorGreaterOrEq"),
+  ("models.SearchFloatOptions.Validate", "case OperatorLessThan, OperatorLessOrEq"),
+  ("models.SearchFloatOptions.Validate", "case OperatorInRange"),
+  ("models.SearchFloatOptions.Validate", "default"),
+  ("models.SearchFloatOptions.Validate", "if o.EndValue <= o.Value"),
+  ("models.SearchStringArrayOptions.Validate", "if len(o.Value) == 0"),
+  ("models.SearchStringArrayOptions.Validate", "switch o.Operator"),
+  ("models.SearchStringArrayOptions.Validate", "case OperatorContainsAll"),
+  ("models.SearchStringArrayOptions.Validate", "case OperatorContainsAny"),
+  ("models.SearchStringArrayOptions.Validate", "default"),
+  ("models.PointAsMap.ExtractIdField", "if !ok"),
+  ("models.PointAsMap.ExtractIdField", "if createNew"),
+  ("models.PointAsMap.ExtractIdField", "if !ok"),
+  ("models.PointAsMap.ExtractIdField", "if err != nil"),
+  ("v2.CreateCollectionRequest.Validate", "if len(req.Id) < 3 || len(req.Id) > 24"),
+  ("v2.CreateCollectionRequest.Validate", "if !((r >= 'a' && r <= 'z') || (r >= '0' && r <= '9'))"),
+  ("v2.SemaDBHandlers.HandleCreateCollection", "if err != nil"),
+  ("v2.SemaDBHandlers.HandleCreateCollection", "switch err"),
+  ("v2.SemaDBHandlers.HandleCreateCollection", "case nil"),
+  ("v2.SemaDBHandlers.HandleCreateCollection", "case cluster.ErrQuotaReached"),
+  ("v2.SemaDBHandlers.HandleCreateCollection", "case cluster.ErrExists"),
+  ("v2.SemaDBHandlers.HandleCreateCollection", "default"),
+  ("v2.SemaDBHandlers.HandleListCollections", "if err != nil"),
+  ("v2.SemaDBHandlers.CollectionURIMiddleware", "if len(collectionId) < 3 || len(collectionId) > 24"),
+  ("v2.SemaDBHandlers.CollectionURIMiddleware", "if err == cluster.ErrNotFound"),
+  ("v2.SemaDBHandlers.CollectionURIMiddleware", "if err != nil"),
+  ("v2.SemaDBHandlers.HandleGetCollection", "if errors.Is(err, cluster.ErrShardUnavailable)"),
+  ("v2.SemaDBHandlers.HandleGetCollection", "if err != nil"),
+  ("v2.SemaDBHandlers.HandleDeleteCollection", "if err != nil"),
+  ("v2.SemaDBHandlers.HandleDeleteCollection", "if len(deletedShardIds) != len(collection.ShardIds)"),
+  ("v2.InsertPointsRequest.Validate", "if len(req.Points) < 1 || len(req.Points) > 10000"),
+  ("v2.SemaDBHandlers.HandleInsertPoints", "if err != nil"),
+  ("v2.SemaDBHandlers.HandleInsertPoints", "if err != nil"),
+  ("v2.SemaDBHandlers.HandleInsertPoints", "if err != nil"),
+  ("v2.SemaDBHandlers.HandleInsertPoints", "if err != nil"),
+  ("v2.SemaDBHandlers.HandleInsertPoints", "if len(pointData) > collection.UserPlan.MaxPointSize"),
+  ("v2.SemaDBHandlers.HandleInsertPoints", "if errors.Is(err, cluster.ErrQuotaReached)"),
+  ("v2.SemaDBHandlers.HandleInsertPoints", "if errors.Is(err, cluster.ErrShardUnavailable)"),
+  ("v2.SemaDBHandlers.HandleInsertPoints", "if err != nil"),
+  ("v2.SemaDBHandlers.HandleInsertPoints", "if len(failedRanges) > 0"),
+  ("v2.UpdatePointsRequest.Validate", "if len(req.Points) < 1 || len(req.Points) > 100"),
+  ("v2.SemaDBHandlers.HandleUpdatePoints", "if err != nil"),
+  ("v2.SemaDBHandlers.HandleUpdatePoints", "if err != nil"),
+  ("v2.SemaDBHandlers.HandleUpdatePoints", "if err != nil"),
+  ("v2.SemaDBHandlers.HandleUpdatePoints", "if err != nil"),
+  ("v2.SemaDBHandlers.HandleUpdatePoints", "if len(pointData) > collection.UserPlan.MaxPointSize"),
+  ("v2.SemaDBHandlers.HandleUpdatePoints", "if err != nil"),
+  ("v2.SemaDBHandlers.HandleUpdatePoints", "if len(failedPoints) > 0"),
+  ("v2.DeletePointsRequest.Validate", "if len(req.Ids) < 1 || len(req.Ids) > 100"),
+  ("v2.DeletePointsRequest.Validate", "if err != nil"),
+  ("v2.SemaDBHandlers.HandleDeletePoints", "if err != nil"),
+  ("v2.SemaDBHandlers.HandleDeletePoints", "if err != nil"),
+  ("v2.SemaDBHandlers.HandleDeletePoints", "if len(failedPoints) > 0"),
+  ("v2.SemaDBHandlers.HandleSearchPoints", "if err != nil"),
+  ("v2.SemaDBHandlers.HandleSearchPoints", "if req.Limit == 0"),
+  ("v2.SemaDBHandlers.HandleSearchPoints", "if err != nil"),
+  ("v2.SemaDBHandlers.HandleSearchPoints", "if err != nil"),
+  ("v2.SemaDBHandlers.HandleSearchPoints", "if sp.DecodedData == nil"),
+  ("v2.SemaDBHandlers.HandleSearchPoints", "if len(sp.Point.Data) > 0"),
+  ("v2.SemaDBHandlers.HandleSearchPoints", "if err != nil"),
+  ("v2.SemaDBHandlers.HandleSearchPoints", "if sp.Distance != nil"),
+  ("v2.SemaDBHandlers.HandleSearchPoints", "if sp.Score != nil"),
+  ("v1.CreateCollectionRequest.Validate", "if len(req.Id) < 3 || len(req.Id) > 16"),
+  ("v1.CreateCollectionRequest.Validate", "if !((r >= 'a' && r <= 'z') || (r >= 'A' && r <= 'Z') || (r >= '0' && r <= '9'))"),
+  ("v1.CreateCollectionRequest.Validate", "if req.VectorSize < 1 || req.VectorSize > 4096"),
+  ("v1.CreateCollectionRequest.Validate", "if req.DistanceMetric != models.DistanceEuclidean && req.DistanceMetric != models.DistanceCosine && req.DistanceMetric != models.DistanceDot"),
+  ("v1.SemaDBHandlers.HandleCreateCollection", "if err != nil"),
+  ("v1.SemaDBHandlers.HandleCreateCollection", "switch err"),
+  ("v1.SemaDBHandlers.HandleCreateCollection", "case nil"),
+  ("v1.SemaDBHandlers.HandleCreateCollection", "case cluster.ErrQuotaReached"),
+  ("v1.SemaDBHandlers.HandleCreateCollection", "case cluster.ErrExists"),
+  ("v1.SemaDBHandlers.HandleCreateCollection", "default"),
+  ("v1.SemaDBHandlers.HandleListCollections", "if err != nil"),
+  ("v1.SemaDBHandlers.HandleListCollections", "if !isV1Collection(col)"),
+  ("v1.SemaDBHandlers.CollectionURIMiddleware", "if len(collectionId) < 3 || len(collectionId) > 16"),
+  ("v1.SemaDBHandlers.CollectionURIMiddleware", "if err == cluster.ErrNotFound"),
+  ("v1.SemaDBHandlers.CollectionURIMiddleware", "if err != nil"),
+  ("v1.SemaDBHandlers.CollectionURIMiddleware", "if !isV1Collection(collection)"),
+  ("v1.SemaDBHandlers.HandleGetCollection", "if errors.Is(err, cluster.ErrShardUnavailable)"),
+  ("v1.SemaDBHandlers.HandleGetCollection", "if err != nil"),
+  ("v1.SemaDBHandlers.HandleDeleteCollection", "if err != nil"),
+  ("v1.SemaDBHandlers.HandleDeleteCollection", "if len(deletedShardIds) != len(collection.ShardIds)"),
+  ("v1.InsertSinglePointRequest.Validate", "if len(req.Id) > 0"),
+  ("v1.InsertSinglePointRequest.Validate", "if err != nil"),
+  ("v1.InsertSinglePointRequest.Validate", "if len(req.Vector) < 1 || len(req.Vector) > 2000"),
+  ("v1.InsertPointsRequest.Validate", "if len(req.Points) < 1 || len(req.Points) > 10000"),
+  ("v1.InsertPointsRequest.Validate", "if err != nil"),
+  ("v1.SemaDBHandlers.HandleInsertPoints", "if err != nil"),
+  ("v1.SemaDBHandlers.HandleInsertPoints", "if len(point.Vector) != int(collection.IndexSchema[\"vector\"].VectorVamana.VectorSize)"),
+  ("v1.SemaDBHandlers.HandleInsertPoints", "if len(point.Id) > 0"),
+  ("v1.SemaDBHandlers.HandleInsertPoints", "if err != nil"),
+  ("v1.SemaDBHandlers.HandleInsertPoints", "if len(binaryPointData) > collection.UserPlan.MaxPointSize"),
+  ("v1.SemaDBHandlers.HandleInsertPoints", "if errors.Is(err, cluster.ErrQuotaReached)"),
+  ("v1.SemaDBHandlers.HandleInsertPoints", "if errors.Is(err, cluster.ErrShardUnavailable)"),
+  ("v1.SemaDBHandlers.HandleInsertPoints", "if err != nil"),
+  ("v1.SemaDBHandlers.HandleInsertPoints", "if len(failedRanges) > 0"),
+  ("v1.UpdateSinglePointRequest.Validate", "if err != nil"),
+  ("v1.UpdateSinglePointRequest.Validate", "if len(req.Vector) < 1 || len(req.Vector) > 2000"),
+  ("v1.UpdatePointsRequest.Validate", "if len(req.Points) < 1 || len(req.Points) > 100"),
+  ("v1.UpdatePointsRequest.Validate", "if err != nil"),
+  ("v1.SemaDBHandlers.HandleUpdatePoints", "if err != nil"),
+  ("v1.SemaDBHandlers.HandleUpdatePoints", "if len(point.Vector) != int(collection.IndexSchema[\"vector\"].VectorVamana.VectorSize)"),
+  ("v1.SemaDBHandlers.HandleUpdatePoints", "if err != nil"),
+  ("v1.SemaDBHandlers.HandleUpdatePoints", "if len(binaryPointData) > collection.UserPlan.MaxPointSize"),
+  ("v1.SemaDBHandlers.HandleUpdatePoints", "if err != nil"),
+  ("v1.SemaDBHandlers.HandleUpdatePoints", "if len(failedPoints) > 0"),
+  ("v1.DeletePointsRequest.Validate", "if len(req.Ids) < 1 || len(req.Ids) > 100"),
+  ("v1.DeletePointsRequest.Validate", "if err != nil"),
+  ("v1.SemaDBHandlers.HandleDeletePoints", "if err != nil"),
+  ("v1.SemaDBHandlers.HandleDeletePoints", "if err != nil"),
+  ("v1.SemaDBHandlers.HandleDeletePoints", "if len(failedPoints) > 0"),
+  ("v1.SearchPointsRequest.Validate", "if len(req.Vector) < 1 || len(req.Vector) > 2000"),
+  ("v1.SearchPointsRequest.Validate", "if req.Limit < 0 || req.Limit > 75"),
+  ("v1.SemaDBHandlers.HandleSearchPoints", "if err != nil"),
+  ("v1.SemaDBHandlers.HandleSearchPoints", "if req.Limit == 0"),
+  ("v1.SemaDBHandlers.HandleSearchPoints", "if len(req.Vector) != int(collection.IndexSchema[\"vector\"].VectorVamana.VectorSize)"),
+  ("v1.SemaDBHandlers.HandleSearchPoints", "if err != nil"),
+  ("v1.SemaDBHandlers.HandleSearchPoints", "if sp.Distance != nil"),
+  ("utils.DecodeValid", "switch ctype"),
+  ("utils.DecodeValid", "case \"application/json\""),
+  ("utils.DecodeValid", "case \"application/msgpack\""),
+  ("utils.DecodeValid", "default"),
+  ("utils.DecodeValid", "if err != nil"),
+  ("utils.DecodeValid", "if err != nil"),
+  ("utils.DecodeValid", "if err != nil"),
+  ("middleware.AppHeaderMiddleware", "if appHeaders.UserId == \"\" || appHeaders.PlanId == \"\""),
+  ("middleware.AppHeaderMiddleware", "if !ok"),
+  ("cluster.ClusterNode.InsertPoints", "if err != nil"),
+  ("cluster.ClusterNode.InsertPoints", "if totalPoints+int64(len(points)) > col.UserPlan.MaxCollectionPointCount"),
+  ("cluster.ClusterNode.InsertPoints", "if err != nil"),
+  ("cluster.ClusterNode.InsertPoints", "if err != nil"),
+  ("cluster.ClusterNode.InsertPoints", "if err != nil"),
+  ("cluster.ClusterNode.RPCCreateCollection", "if args.Dest != c.MyHostname"),
+  ("cluster.ClusterNode.RPCCreateCollection", "if err != nil"),
+  ("cluster.ClusterNode.RPCCreateCollection", "if err != nil"),
+  ("cluster.ClusterNode.RPCCreateCollection", "if b.Get(key) != nil"),
+  ("cluster.ClusterNode.RPCCreateCollection", "if err != nil"),
+  ("cluster.ClusterNode.RPCCreateCollection", "if count >= args.Collection.UserPlan.MaxCollections"),
+  ("cluster.ClusterNode.RPCCreateCollection", "if err != nil")
+] := rfl
+
 end Sema.C18
